@@ -7,7 +7,7 @@ use generic_array::sequence::GenericSequence;
 use generic_array::typenum::{U2, U3};
 use generic_array::{ArrayLength, GenericArray};
 use harness::engine::{self, Acc, Args, Report};
-use harness::registry::{self, Elem, Tracked, TrackedZst};
+use harness::registry::{self, Elem, Tracked, TrackedBig, TrackedZst};
 use harness::with_mid;
 use proptest::prelude::*;
 use serde::{Deserialize, Serialize};
@@ -46,6 +46,8 @@ pub enum Op {
     MapDrop(u8),
     ZipDrop(u8),
     FoldArrDrop(u8),
+    /// by-value zip of a plain (no drop glue) array with a tracked one whose closure drops both: 0 plain on the left, 1 plain on the right
+    ZipMixedDrop(u8),
 }
 
 #[derive(Clone, Debug, Serialize, Deserialize, PartialEq, Eq, Hash)]
@@ -57,6 +59,9 @@ pub struct Case {
     pub op: Op,
     /// index (in creation order) of the element whose destructor panics
     pub e: usize,
+    /// 96-byte drop-tracked elements instead of the 24-byte ones
+    #[serde(default)]
+    pub big: bool,
 }
 
 fn arm(ids: &[Option<u32>], e: usize) {
@@ -317,6 +322,29 @@ fn exec_typed<T: Elem + Clone + Default, N: ArrayLength>(case: &Case, acc: &mut 
                 expect_panic_payload_ok &= c.injected;
             }
         }
+        Op::ZipMixedDrop(side) => {
+            let plain: GenericArray<u32, N> = GenericArray::generate(|i| i as u32);
+            if n > 0 {
+                arm(&ids, e % n);
+            }
+            let r = engine::catch(move || {
+                if side == 0 {
+                    drop(plain.zip(arr, |a, b| {
+                        drop(b);
+                        a as u8
+                    }))
+                } else {
+                    drop(arr.zip(plain, |a, b| {
+                        drop(a);
+                        b as u8
+                    }))
+                }
+            });
+            fired_in_op = registry::drop_panic_fired();
+            if let Err(c) = r {
+                expect_panic_payload_ok &= c.injected;
+            }
+        }
         Op::ZipDrop(form) => {
             let other: GenericArray<T, N> = GenericArray::generate(|i| T::mk(300 + i as u32));
             let mut all = ids.clone();
@@ -374,6 +402,8 @@ pub fn exec(case: &Case, acc: &mut Acc) -> Result<(), String> {
     }
     if case.zst {
         with_mid!(case.n, N, exec_typed::<TrackedZst, N>(case, acc))
+    } else if case.big {
+        with_mid!(case.n, N, exec_typed::<TrackedBig, N>(case, acc))
     } else {
         with_mid!(case.n, N, exec_typed::<Tracked, N>(case, acc))
     }
@@ -409,6 +439,8 @@ fn whole_ops(n: usize) -> Vec<Op> {
     for f in 0..3u8 {
         v.push(Op::ZipDrop(f));
     }
+    v.push(Op::ZipMixedDrop(0));
+    v.push(Op::ZipMixedDrop(1));
     v
 }
 
@@ -420,9 +452,12 @@ fn exhaustive(nmax: usize) -> Vec<Case> {
                 let len = n - front - back;
                 for op in ops_for(len, n) {
                     for e in 0..len.max(1) {
-                        out.push(Case { zst: false, n, front, back, op, e });
+                        out.push(Case { zst: false, n, front, back, op, e, big: false });
+                        if n <= 6 {
+                            out.push(Case { zst: false, n, front, back, op, e, big: true });
+                        }
                         if e == 0 || e == len - 1 {
-                            out.push(Case { zst: true, n, front, back, op, e });
+                            out.push(Case { zst: true, n, front, back, op, e, big: false });
                         }
                     }
                 }
@@ -437,9 +472,12 @@ fn exhaustive(nmax: usize) -> Vec<Case> {
                 _ => n,
             };
             for e in 0..span.max(1) {
-                out.push(Case { zst: false, n, front: 0, back: 0, op, e });
+                out.push(Case { zst: false, n, front: 0, back: 0, op, e, big: false });
+                if n <= 6 {
+                    out.push(Case { zst: false, n, front: 0, back: 0, op, e, big: true });
+                }
                 if e % 3 == 0 {
-                    out.push(Case { zst: true, n, front: 0, back: 0, op, e });
+                    out.push(Case { zst: true, n, front: 0, back: 0, op, e, big: false });
                 }
             }
         }
@@ -489,10 +527,11 @@ fn random_strategy() -> impl Strategy<Value = Case> {
             36 => Op::ZipDrop(0),
             37 => Op::ZipDrop(1),
             38 => Op::ZipDrop(2),
+            39 if es % 2 == 0 => Op::ZipMixedDrop((es % 4 / 2) as u8),
             _ => Op::TryFromVecWrongLen,
         };
         let (front, back) = if opk >= 23 { (0, 0) } else { (front, back) };
-        Case { zst, n, front, back, op, e: (es as usize * (2 * n + 2)) >> 16 }
+        Case { zst, n, front, back, op, e: (es as usize * (2 * n + 2)) >> 16, big: !zst && es % 3 == 0 }
     })
 }
 
@@ -528,7 +567,7 @@ pub fn main() {
             level: "fault_enumeration",
             rule: "case = (operation, N, iterator position (front, back), argument, the single element e whose destructor panics once). \
                    Enumerated completely for N in 0..=nmax: iterator drop/nth(a)/nth_back(a)/count/last/fold/rfold/for-loop/clone-drop from every (front, back) with every a in 0..=len+2 and usize::MAX and every e in the live range; \
-                   whole-value operations (array, Box, nested array drop; too-short/too-long collect, stack and boxed; builder/consumer dropped at every position; map/zip/fold whose closure drops its argument) with every e. Larger N sampled with proptest. \
+                   element kinds: 24-byte, 96-byte and zero-sized drop-tracked; whole-value operations (array, Box, nested array drop; zips of a plain array with a tracked one; too-short/too-long collect, stack and boxed; builder/consumer dropped at every position; map/zip/fold whose closure drops its argument) with every e. Larger N sampled with proptest. \
                    After the panic is caught the caller keeps using the iterator (drains it from both ends), so a stale read is observed, not just a second drop. \
                    Oracle: per-element drop count <= 1, no observation after drop, no garbage drop; leaks are allowed and only counted. \
                    non-trivial = the chosen destructor actually ran and panicked inside the operation; distinct = distinct case tuples",
@@ -579,5 +618,5 @@ pub fn decode(data: &[u8]) -> Case {
         _ => Op::FoldArrDrop(0),
     };
     let (front, back) = if g(3) % 24 >= 15 { (0, 0) } else { (front, back) };
-    Case { zst: g(6) % 5 == 0, n, front, back, op, e: g(7) % (2 * n + 2) }
+    Case { zst: g(6) % 5 == 0, n, front, back, op, e: g(7) % (2 * n + 2), big: g(6) % 5 == 1 }
 }
